@@ -277,6 +277,44 @@ pub fn generate(thorough: bool, seed: u64, out: &mut dyn Write) {
         writeln!(out, "fname {} {} {}", hex(&name), rng.below(8), rng.u32_edge()).unwrap();
     }
 
+    // --- root lists -----------------------------------------------------------------------------
+    let k = if thorough { 6_000 } else { 150 };
+    for i in 0..k {
+        let n = match rng.below(5) { 0 => 0, 1 => 1, 2 | 3 => rng.range(2, 10), _ => rng.range(10, 60) } as usize;
+        let mut es = Vec::new();
+        for _ in 0..n {
+            let lo = if rng.chance(1, 30) { 0 } else { 1 };
+            let len = rng.range(lo, 24) as usize;
+            let mut name: Vec<u8> = (0..len)
+                .map(|_| match rng.below(12) {
+                    0 => b'/',
+                    1 => b'_',
+                    2 => *rng.pick(b" #.-+;:\r\t"),
+                    3 => rng.range(b'0' as u64, b'9' as u64) as u8,
+                    4..=6 => rng.range(b'A' as u64, b'Z' as u64) as u8,
+                    _ => rng.range(b'a' as u64, b'z' as u64) as u8,
+                })
+                .collect();
+            if name.first() == Some(&b'#') {
+                name[0] = b'H';
+            }
+            if name == b"EXLT" {
+                name.push(b'2');
+            }
+            let id: i64 = match rng.below(8) {
+                0 => -1,
+                1 => 0,
+                2 => i32::MAX as i64,
+                3 => i32::MIN as i64,
+                4 => -(rng.below(100000) as i64),
+                _ => rng.below(100000) as i64,
+            };
+            es.push(format!("{}:{}", hex(&name), id));
+        }
+        let ver: i64 = match i % 5 { 0 => 2, 1 => i32::MAX as i64, 2 => i32::MIN as i64, 3 => -(rng.below(1000) as i64), _ => rng.below(1000) as i64 };
+        writeln!(out, "names {} {}", ver, if es.is_empty() { "-".to_string() } else { es.join(",") }).unwrap();
+    }
+
     // --- wide sub-row strides: i * data_offset + 2 (i + 1) crosses 65 535 ----------------------
     let m = if thorough { 1_600 } else { 32 };
     for i in 0..m {
@@ -373,6 +411,16 @@ pub fn run(case: &str, input: &str) -> String {
             guarded(move || {
                 let page = ExcelDataPagination { start_id: start, row_count: 0 };
                 hex(EXD::calculate_filename(&name, lang, &page).as_bytes())
+            })
+        }
+        "exl" if f.len() == 2 => {
+            let Some(buf) = unhex(f[1]) else { return "bad-case".into() };
+            guarded(move || match physis::exl::EXL::from_existing(&buf) {
+                None => "none".to_string(),
+                Some(exl) => {
+                    let es: Vec<String> = exl.entries.iter().map(|(n, i)| format!("{}:{}", hex(n.as_bytes()), i)).collect();
+                    format!("{} {}", exl.version, if es.is_empty() { "-".to_string() } else { es.join(",") })
+                }
             })
         }
         _ => "bad-case".into(),
